@@ -202,9 +202,24 @@ func parallelLeg(ctx *kernel.BatchContext) []kernel.Violation {
 			Detail: "Go race detector, 16 goroutines running independent jobs:\n" + firstN(stderr, 6000)})
 	case strings.Contains(stderr, "fatal error: concurrent map"):
 		line := stderr[strings.Index(stderr, "fatal error:"):]
+		// the crashing goroutine is printed first: its first non-runtime frame must be xjs code
+		crash := ""
+		for _, ln := range strings.Split(line, "\n")[1:] {
+			f := strings.TrimSpace(ln)
+			if f == "" || strings.HasPrefix(f, "goroutine ") || strings.HasPrefix(f, "/") || strings.HasPrefix(f, "runtime.") || strings.HasPrefix(f, "internal/") {
+				continue
+			}
+			crash = f
+			break
+		}
+		if !strings.HasPrefix(crash, "github.com/xjslang/xjs/") || strings.HasPrefix(crash, "github.com/xjslang/xjs/simhook.") {
+			ctx.Infra = append(ctx.Infra, "parallel leg: runtime crash whose faulting frame is harness code ("+crash+"):\n"+tailStr(stderr, 3000))
+			return nil
+		}
 		if i := strings.IndexByte(line, '\n'); i > 0 {
 			line = line[:i]
 		}
+		line += " in " + raceFrame.FindString(crash)
 		viols = append(viols, kernel.Violation{Property: "C14", Kind: "data-race", Signature: "data-race|" + line,
 			Detail: "runtime crash with 16 goroutines running independent jobs:\n" + firstN(stderr, 6000)})
 	case c.Err() != nil:
